@@ -10,7 +10,7 @@ from ..ctx import engine
 from ..model import AnalysisError, Program
 from ..paths import CannotEval, SymPath, evaluate, feasible_paths, show
 from ..report import Report
-from .common import HELPERS, LOGIC, RUNNERS, attr, ctor_args, enum_name
+from .common import is_loop_var, HELPERS, LOGIC, RUNNERS, attr, ctor_args, enum_name
 from .runner_flow import ALL_KINDS, EXC_KINDS, RunnerClient, flag1, run_runners, short_witness
 
 CANCEL = ("CancelledError", "KeyboardInterrupt", "SystemExit", "GeneratorExit", "OtherBase")
@@ -224,7 +224,7 @@ def check_runner_fields(rep: Report, prog: Program) -> None:
                     invoked = e
                     av = current_local(p, e, "attempts")
                     rep.instance("R11.3", f"{name}|at-invocation|{show(av)}")
-                    if av is not None and av[0] == "fresh" and av[2] == "attempt":
+                    if is_loop_var(av):
                         rep.ok("R11.3")
                     else:
                         rep.fail("R11.3", f"{name}|attempts-at-invocation", f"{q}: when the operation is invoked `attempts` is {show(av)}, not the loop variable (an attempt that raises would not be counted)", where=f"{fi.module.relpath}:{e.lineno}", function=q, path=p.describe())
@@ -238,7 +238,7 @@ def check_runner_fields(rep: Report, prog: Program) -> None:
                                 a = e.args[i]
                     rep.instance("R11.3", f"{name}|outcome-site@{e.lineno}|{show(a)}")
                     want_iter = invoked is not None
-                    good = a is not None and ((a[0] == "fresh" and a[2] == "attempt") if want_iter else (a == ("const", 0) or (a[0] == "fresh" and a[2] == "attempt") or a[0] == "havoc" or a == ("free", "attempts")))
+                    good = a is not None and (is_loop_var(a) if want_iter else (a == ("const", 0) or is_loop_var(a) or a[0] == "havoc" or a == ("free", "attempts")))
                     if good:
                         rep.ok("R11.3")
                     else:
